@@ -1,7 +1,59 @@
+/-
+  C17: socket addresses survive conversion (the conversion half; the runtime half is
+  decided by the reactor trace checks).
+  Only property theorems and non-vacuity examples live here; helper lemmas are in
+  Gnet/Proofs/Sockaddr.lean. Statements are never weakened to make a proof pass.
+-/
 import Gnet.Model.Sockaddr
+import Gnet.Proofs.Sockaddr
 namespace Gnet.Props.C17
 open Gnet.Sockaddr
 
-theorem itod_zero : itod 0 = "0" := by simp [itod]
+/-- a well-formed interface table: names and indices are distinct, indices positive, no
+    interface is named like a decimal number or the empty string -/
+abbrev GoodTable (ifs : IfTable) : Prop := Proofs.Sockaddr.GoodTable ifs
+
+/-- IPv4 in either encoding, any port, no zone: the round trip yields the same address
+    (under `net.IP.Equal`) and port -/
+theorem roundtrip_v4 (ifs : IfTable) (ip : IP) (port : Int) (h4 : (to4 ip).isSome) :
+    ∃ sa a, ipToSockaddr ifs ip false port "" = some sa ∧ sockaddrToNetAddr ifs sa = some a ∧
+      ipEqual a.ip ip = true ∧ a.port = port ∧ a.zone = "" :=
+  Proofs.Sockaddr.roundtrip_v4 ifs ip port h4
+
+/-- IPv6 (16 bytes, not IPv4-mapped), any port, zone given by interface name -/
+theorem roundtrip_v6_name (ifs : IfTable) (hg : GoodTable ifs) (ip : IP) (port : Int) (name : String) (idx : Nat)
+    (h16 : ip.length = 16) (hn4 : to4 ip = none) (hz : (name, idx) ∈ ifs) (hi : idx < 2 ^ 32) :
+    ∃ sa a, ipToSockaddr ifs ip false port name = some sa ∧ sockaddrToNetAddr ifs sa = some a ∧
+      a.ip = ip ∧ a.port = port ∧ a.zone = name :=
+  Proofs.Sockaddr.roundtrip_v6_name ifs hg ip port name idx h16 hn4 hz hi
+
+/-- IPv6 without zone -/
+theorem roundtrip_v6_nozone (ifs : IfTable) (ip : IP) (port : Int) (h16 : ip.length = 16) (hn4 : to4 ip = none) :
+    ∃ sa a, ipToSockaddr ifs ip false port "" = some sa ∧ sockaddrToNetAddr ifs sa = some a ∧
+      a.ip = ip ∧ a.port = port ∧ a.zone = "" :=
+  Proofs.Sockaddr.roundtrip_v6_nozone ifs ip port h16 hn4
+
+/-- IPv6 with a numeric zone `0 < n < 0xFFFFFF` (written canonically, i.e. `itod n`) that is not
+    the index of an interface of this host -/
+theorem roundtrip_v6_numeric (ifs : IfTable) (hg : GoodTable ifs) (ip : IP) (port : Int) (n : Nat)
+    (h16 : ip.length = 16) (hn4 : to4 ip = none) (h0 : 0 < n) (hb : n < big)
+    (hni : ∀ p ∈ ifs, p.2 ≠ n) :
+    ∃ sa a, ipToSockaddr ifs ip false port (itod n) = some sa ∧ sockaddrToNetAddr ifs sa = some a ∧
+      a.ip = ip ∧ a.port = port ∧ a.zone = itod n :=
+  Proofs.Sockaddr.roundtrip_v6_numeric ifs hg ip port n h16 hn4 h0 hb hni
+
+/-- `itod` and `dtoi` are inverse below `big` -/
+theorem dtoi_itod (n : Nat) (hb : n < big) (h0 : 0 < n) : dtoi (itod n) = (n, true) :=
+  Proofs.Sockaddr.dtoi_itod n hb h0
+
+/-- a non-nil IP whose length is neither 4 nor 16 yields nil, never a wrong address -/
+theorem invalid_length_nil (ifs : IfTable) (ip : IP) (port : Int) (zone : String)
+    (h4 : ip.length ≠ 4) (h16 : ip.length ≠ 16) : ipToSockaddr ifs ip false port zone = none :=
+  Proofs.Sockaddr.invalid_length_nil ifs ip port zone h4 h16
+
+-- non-vacuity
+example : ipToSockaddr [("lo", 1), ("eth0", 4)] ([0xfe, 0x80] ++ List.replicate 13 0 ++ [1]) false 80 "eth0"
+    = some (.inet6 80 4 ([0xfe, 0x80] ++ List.replicate 13 0 ++ [1])) := by decide
+example : itod 77777 = "77777" := by decide
 
 end Gnet.Props.C17
